@@ -115,6 +115,7 @@ type Recorder struct {
 	FramesSeen   int
 	Truncated    bool        // some step or frame of the current run was not logged
 	PanicOp      int         // opcode whose execute did not return (a panic unwound the frame), else -1
+	MaxMem       int         // largest memory length seen in the current run
 	LastRetLen   map[int]int // depth -> length of what the last frame that exited at that depth returned
 	Cancel       func()      // aborts the running EVM (EVM.Cancel); called once when HardSteps is exceeded
 	Cancelled    bool
@@ -143,6 +144,7 @@ func (r *Recorder) BeginRun(id int) {
 	r.FramesLogged, r.FramesSeen, r.Truncated, r.FaultsLogged = 0, 0, false, 0
 	r.PanicOp = -1
 	r.Cancelled, r.boundSaid = false, false
+	r.MaxMem = 0
 	r.LastStack, r.LastMem = [][]int{}, nil
 }
 
@@ -263,6 +265,9 @@ func (r *Recorder) StepCharged(s *vm.VerifStep) {
 	}
 	p := fr.p
 	p.charged, p.cost, p.g1, p.ml1 = true, s.Cost, s.Gas, len(s.Mem)
+	if len(s.Mem) > r.MaxMem {
+		r.MaxMem = len(s.Mem)
+	}
 	if r.Opt.Values && p.op == SHA3 && len(p.operands) >= 2 {
 		// digest of the slice of the (already expanded) memory selected by the
 		// operands; KECCAK256 itself is out of TLA+'s reach
